@@ -98,9 +98,36 @@ def cut(t, max_depth):
 # implementation side
 
 
-def _build(t, binary, sep, root=True):
+_EQ_CLASSES = {}
+
+
+def _classes(kind):
+    """Node / BinaryNode, or user subclasses with value semantics: equal and hashed by name, so that distinct
+    nodes of different branches compare equal (the library has to work on identity)"""
     from bigtree.node.binarynode import BinaryNode
     from bigtree.node.node import Node
+    if kind != "eq":
+        return Node, BinaryNode
+    if not _EQ_CLASSES:
+        class EqNode(Node):
+            def __eq__(self, other):
+                return isinstance(other, Node) and self.node_name == other.node_name
+
+            def __hash__(self):
+                return hash(self.node_name)
+
+        class EqBinaryNode(BinaryNode):
+            def __eq__(self, other):
+                return isinstance(other, Node) and self.node_name == other.node_name
+
+            def __hash__(self):
+                return hash(self.node_name)
+        _EQ_CLASSES.update(n=EqNode, b=EqBinaryNode)
+    return _EQ_CLASSES["n"], _EQ_CLASSES["b"]
+
+
+def _build(t, binary, sep, root=True, cls="plain"):
+    Node, BinaryNode = _classes(cls)
 
     sty = t[2] if len(t) > 2 else {}
     extra = dict(sty.get("at", {}))
@@ -108,12 +135,12 @@ def _build(t, binary, sep, root=True):
         if k in sty:
             extra[k] = dict(sty[k])
     if binary:
-        kids = [None if k is None else _build(k, True, sep, False) for k in t[1]]
+        kids = [None if k is None else _build(k, True, sep, False, cls) for k in t[1]]
         while len(kids) < 2:
             kids.append(None)
         n = BinaryNode(t[0], left=kids[0], right=kids[1], **extra)
     else:
-        n = Node(t[0], children=[_build(k, False, sep, False) for k in t[1]], **extra)
+        n = Node(t[0], children=[_build(k, False, sep, False, cls) for k in t[1]], **extra)
     if root:
         n.sep = sep
     return n
@@ -183,7 +210,13 @@ def _lines_of(text):
     return text[:-1].split("\n") if text.endswith("\n") else text.split("\n")
 
 
-def _observe(case, root, start, more):
+def cache_orig(case, key):
+    if key == "style":
+        return case["style"]["v"]
+    return (case.get("po") or {}).get(key)
+
+
+def _observe(case, root, start, more, cache):
     from bigtree.tree import export
 
     kind = case["kind"]
@@ -198,12 +231,15 @@ def _observe(case, root, start, more):
         if case["max_depth"] or case.get("explicit_defaults"):
             kw["max_depth"] = case["max_depth"]
     if kind == "v":
-        style = _vstyle(case["style"])
+        style = cache.setdefault("style", _vstyle(case["style"]))
         try:
             out = [[p, f, n.node_name] for p, f, n in export.yield_tree(target, style=style, **kw)]
         except Exception:
             return {"out": None, "printed": None}
         po = dict(case.get("po") or {})
+        for key in ("attr_list", "attr_bracket"):
+            if key in po:
+                po[key] = cache.setdefault(key, list(po[key]))
         buf = io.StringIO()
         try:
             export.print_tree(target, style=style, file=buf, **kw, **po)
@@ -217,7 +253,7 @@ def _observe(case, root, start, more):
                 raise AssertionError("Node.show() and print_tree() print different text")
         return {"out": out, "printed": printed}
     if kind == "h":
-        style = _hstyle(case["style"])
+        style = cache.setdefault("style", _hstyle(case["style"]))
         hkw = dict(kw)
         if not case["inter"] or case.get("explicit_defaults"):
             hkw["intermediate_node_name"] = case["inter"]
@@ -289,14 +325,19 @@ def _observe(case, root, start, more):
 
 
 def run_impl(prop, case):
-    root = _build(case["tree"], case["binary"], case["sep"])
+    cls = case.get("cls", "plain")
+    root = _build(case["tree"], case["binary"], case["sep"], True, cls)
     start = _locate(root, case["start"])
-    more = [_build(t, False, case["sep"]) for t in case.get("more", [])]
+    more = [_build(t, False, case["sep"], True, cls) for t in case.get("more", [])]
     before = _snapshot([root] + more)
-    obs = _observe(case, root, start, more)
+    cache = {}
+    obs = _observe(case, root, start, more, cache)
     if _snapshot([root] + more) != before:
         raise AssertionError("the call changed its input tree (structure, class or attributes of some node)")
-    again = _observe(case, root, start, more)
+    again = _observe(case, root, start, more, cache)          # same style / option objects as the first call
+    for key, val in cache.items():
+        if isinstance(val, (list, tuple, dict)) and json.loads(json.dumps(val)) != json.loads(json.dumps(cache_orig(case, key))):
+            raise AssertionError("the call changed an argument object owned by the caller: " + key)
     if again != obs:
         raise AssertionError("the same call on the same tree gave a different result the second time")
     if _snapshot([root] + more) != before:
@@ -556,7 +597,8 @@ NODE_STY = {"style": ["filled", "dashed", "bold"], "fillcolor": ["gold", "red"],
 EDGE_STY = {"label": ["first", "second", "edge label", "x"], "style": ["bold", "dashed"], "color": ["black", "red"]}
 
 
-ATTR_VALUES = {"age": [90, 65, 0, -3, 7], "x": ["q", "two words", "", "1"], "tag": [None, None, "t", 5]}
+ATTR_VALUES = {"age": [90, 65, 0, -3, 7], "x": ["q", "two words", "", "1"], "tag": [None, None, "t", 5],
+               "names": ["nn"], "name_en": ["en", None], "n": [1, 0], "path": ["p/q"], "shift": [2], "y": [3, None]}
 SHAPES = ["rounded_edge", "stadium", "subroutine", "cylindrical", "circle", "asymmetric", "rhombus", "hexagon",
           "parallelogram", "parallelogram_alt", "trapezoid", "trapezoid_alt", "double_circle"]
 ARROWS = ["normal", "bold", "dotted", "open", "bold_open", "dotted_open", "invisible", "circle", "cross",
@@ -577,7 +619,7 @@ def _with_attrs(rng, tree, table, p):
 
 def _print_options(rng, case):
     """print_tree's attribute options on nodes with differing attribute sets"""
-    case["tree"] = _with_attrs(rng, case["tree"], ATTR_VALUES, 0.55)
+    case["tree"] = _with_attrs(rng, case["tree"], ATTR_VALUES, 0.4)
     r = rng.random()
     po = {}
     if r < 0.3:
@@ -585,9 +627,9 @@ def _print_options(rng, case):
         if rng.random() < 0.3:
             po["attr_list"] = ["age"]             # overridden by all_attrs
     else:
-        names = ["age", "x", "tag", "zz"]
+        names = ["age", "x", "tag", "zz", "name", "names", "name_en", "n", "path", "y"]
         rng.shuffle(names)
-        po["attr_list"] = names[: rng.randint(1, 4)]
+        po["attr_list"] = names[: rng.randint(1, 5)]
         if rng.random() < 0.5:
             po["attr_omit_null"] = rng.random() < 0.8
     if rng.random() < 0.35:
@@ -735,6 +777,9 @@ def gen_case(rng, kind=None):
             case["max_depth"] = rng.randint(2, 4)
         if rng.random() < 0.6:
             _mermaid_options(rng, case)
+    if rng.random() < 0.25:
+        case["cls"] = "eq"                        # user subclasses equal / hashed by name
+        case["stratum"] += "/eq"
     if kind in ("v", "h", "mermaid") and rng.random() < 0.3:
         case["explicit_defaults"] = True          # pass max_depth=0 / intermediate_node_name=True explicitly
     if kind == "v" and rng.random() < 0.35:
@@ -823,6 +868,15 @@ TWO_SINGLE = ["r", [["aaa", [["p", []], ["q", []]]], ["b", [["c", [["d", []]]], 
 BANDS = ["r", [["aaaaaa", [["b", [["cccc", []]]]]], ["d", [["eeeeeeee", []], ["f", [["g", []]]]]]]]
 DEEP4 = ["r", [["a", [["b", [["c", [["d", []], ["e", []]]], ["f", []]]], ["g", []]]], ["h", [["i", [["j", []]]]]]]]
 BIN = ["a", [None, ["b", [["c", []], None]]]]
+# every glyph role: first / subsequent / last child, a child on its parent's row (middle), a parent between its
+# children (split), an only child, two one-row children, a deep last child, uneven subtrees
+ROLES = ["r", [["a", []], ["b", []], ["c", []], ["d", []],
+               ["e", [["f", []], ["g", [["h", []], ["i", []]]], ["j", [["k", [["l", []]]]]]]]]]
+ROLES2 = ["r", [["a", [["b", []], ["c", []], ["d", []]]], ["e", [["f", [["g", []]]]]], ["h", []], ["i", []],
+                ["j", [["k", []], ["l", []], ["m", []], ["n", []], ["o", []]]]]]
+# equal names in different branches: the earlier bearer has a following sibling, the later one is a last / only
+# child with descendants; a node named like its ancestor
+EQNAMES = ["r", [["x", [["p", []]]], ["y", [["x", [["p", [["q", []]]]]], ["r", [["x", []], ["y", []]]]]], ["p", []]]]
 ATTRS = ["a", [["b", [["d", [], {"at": {"x": ""}}]], {"at": {"age": 65, "tag": None}}], ["c", [], {"at": {"tag": "t", "x": "two words"}}]],
          {"at": {"age": -3}}]
 ATTRS_BIN = ["1", [None, ["b", [], {"at": {"age": 0}}]], {"at": {"age": 90, "tag": None}}]
@@ -883,6 +937,20 @@ def corpus(prop):
             out.append((nm, _mk("h", t, style={"t": "name", "v": st}, inter=False)))
         out.append((nm, _mk("dot", t)))
         out.append((nm, _mk("mermaid", t)))
+    for st in VSTYLES:
+        for form in ("name", "object"):
+            for t in (ROLES, ROLES2):
+                out.append(("glyph-roles", _mk("v", t, style={"t": form, "v": st})))
+                out.append(("glyph-roles", _mk("h", t, style={"t": form, "v": st})))
+                out.append(("glyph-roles", _mk("h", t, style={"t": form, "v": st}, inter=False)))
+    for cv in CUSTOM_V[:5]:
+        out.append(("glyph-roles", _mk("v", ROLES, style={"t": "list", "v": cv})))
+    for ch in CUSTOM_H:
+        out.append(("glyph-roles", _mk("h", ROLES, style={"t": "tuple", "v": ch})))
+        out.append(("glyph-roles", _mk("h", ROLES2, style={"t": "custom_object", "v": ch})))
+    for kind in ("v", "h", "dot", "mermaid"):
+        out.append(("equal-names-eq-class", _mk(kind, EQNAMES, cls="eq")))
+        out.append(("equal-names-eq-class", _mk(kind, EQNAMES, cls="eq", start=[1], max_depth=3 if kind in "vh" else 0)))
     for kind in ("v", "h", "dot", "mermaid"):
         out.append(("binary", _mk(kind, BIN, binary=True)))
     for sep in ("/", "-", "."):
@@ -1039,7 +1107,7 @@ def shrink_candidates(prop, case):
         c = dict(case); c["start"] = []; c["start_mode"] = "object"; yield c
     if case["max_depth"]:
         c = dict(case); c["max_depth"] = 0; yield c
-    for opt in ("po", "mm", "explicit_defaults"):
+    for opt in ("po", "mm", "explicit_defaults", "cls"):
         if case.get(opt):
             c = dict(case); c.pop(opt); yield c
             if isinstance(case[opt], dict):
@@ -1103,7 +1171,7 @@ def nontrivial(prop, case, obs):
 
 def sample(prop, case, obs):
     return {"case": {k: case.get(k) for k in ("kind", "binary", "tree", "start", "start_mode", "max_depth", "style",
-                                              "inter", "dot", "po", "mm", "more", "explicit_defaults")},
+                                              "inter", "dot", "po", "mm", "more", "explicit_defaults", "cls")},
             "observed": obs}
 
 
